@@ -40,7 +40,8 @@ Definition line_left (rtl : bool) (x offset line_width : Q) : Q :=
 Inductive ibox :=
 | T (spaces : nat) (x w js : Q)              (* TextBox: number of expandable spaces, position_x, width, justification_spacing *)
 | I (rtl : bool) (x w : Q) (kids : list ibox)   (* InlineBox / LineBox *)
-| A (x w : Q)                                 (* atomic inline-level box *)
+| A (x w : Q) (inside : list ibox)           (* atomic inline-level box (inline-block, inline-table, ...) and the boxes
+                                                laid out inside it, positioned in page coordinates *)
 | F (x w : Q).                                (* out-of-flow child: skipped *)
 
 Fixpoint count_spaces (b : ibox) : nat :=
@@ -48,6 +49,15 @@ Fixpoint count_spaces (b : ibox) : nat :=
   | T n _ _ _ => n
   | I _ _ _ kids => fold_right (fun k acc => (count_spaces k + acc)%nat) O kids
   | _ => O
+  end.
+
+(* Box.translate(dx): the box and every descendant *)
+Fixpoint shift (d : Q) (b : ibox) : ibox :=
+  match b with
+  | T n x w j => T n (x + d) w j
+  | I r x w kids => I r (x + d) w (map (shift d) kids)
+  | A x w ins => A (x + d) w (map (shift d) ins)
+  | F x w => F (x + d) w
   end.
 
 Section Go.
@@ -76,7 +86,7 @@ Fixpoint add_word_spacing (b : ibox) (js adv : Q) : ibox * Q :=
       let '(kids', a') := if rtl then rtl_go (fun k a => add_word_spacing k js a) kids adv
                           else ltr_go (fun k a => add_word_spacing k js a) kids adv in
       (I rtl (x + adv) (w + (a' - adv)) kids', a')
-  | A x w => (A (x + adv) w, adv)
+  | A x w ins => (shift adv (A x w ins), adv)           (* box.translate(x_advance, 0) *)
   | F x w => (F x w, adv)
   end.
 
@@ -84,8 +94,36 @@ Definition justify_line (line : ibox) (extra : Q) : ibox :=
   let n := count_spaces line in
   if (0 <? n)%nat then fst (add_word_spacing line (extra / inject_Z (Z.of_nat n)) 0) else line.
 
-Definition box_w (b : ibox) : Q := match b with T _ _ w _ | I _ _ w _ | A _ w | F _ w => w end.
-Definition box_x (b : ibox) : Q := match b with T _ x _ _ | I _ x _ _ | A x _ | F x _ => x end.
+Definition box_w (b : ibox) : Q := match b with T _ _ w _ | I _ _ w _ | A _ w _ | F _ w => w end.
+Definition box_x (b : ibox) : Q := match b with T _ x _ _ | I _ x _ _ | A x _ _ | F x _ => x end.
+
+(* every box laid out inside an atomic box lies inside that box, at every depth *)
+Fixpoint well_nested (b : ibox) : Prop :=
+  match b with
+  | A x w ins =>
+      (fix go (l : list ibox) : Prop :=
+         match l with
+         | [] => True
+         | d :: r => (x <= box_x d /\ box_x d + box_w d <= x + w /\ well_nested d) /\ go r
+         end) ins
+  | I _ _ _ kids =>
+      (fix go (l : list ibox) : Prop := match l with [] => True | k :: r => well_nested k /\ go r end) kids
+  | _ => True
+  end.
+
+(* decidable rendition, for the judges *)
+Fixpoint well_nested_b (b : ibox) : bool :=
+  match b with
+  | A x w ins =>
+      (fix go (l : list ibox) : bool :=
+         match l with
+         | [] => true
+         | d :: r => Qle_bool x (box_x d) && Qle_bool (box_x d + box_w d) (x + w) && well_nested_b d && go r
+         end) ins
+  | I _ _ _ kids =>
+      (fix go (l : list ibox) : bool := match l with [] => true | k :: r => well_nested_b k && go r end) kids
+  | _ => true
+  end.
 
 (* --------------------------------------------------------------------------------- vertical stacking *)
 (* line_box_verticality for children with vertical-align: baseline: each child is (baseline, margin_height),
